@@ -392,7 +392,7 @@ impl Scenario for BarrierSc {
 
 pub fn cfgs(tier: &str) -> Vec<(BarrierCfg, Bounds)> {
     let q = tier == "quick";
-    let wall = Duration::from_secs(if q { 15 } else { 300 });
+    let wall = Duration::from_secs(if q { 150 } else { 900 });
     let slow = |y: usize, after: After| SlowCfg {
         yields: y,
         reaches_barrier: true,
